@@ -139,7 +139,17 @@ package httpgrpc
 //@   ensures[C03] result1 != nil ==> result0 == nil
 //@   modifies nothing
 //
+// statFromResponse: the X-GRPC-Status header, when present and parseable, decides
+// the code (and message) whatever the HTTP status says; otherwise the HTTP status
+// is mapped with codeFromHttpStatus. nil means OK.
+//@ define xstatus(reply) = hdr1(reply.Header, "X-GRPC-Status")
+//@ define xcode(reply) = split_head(xstatus(reply), ":")
 //@ func statFromResponse
+//@   ensures[C14,C02] header_code_wins_over_http_status: old(xcode(reply)) != "" && parse_ok(old(xcode(reply)), 32) ==> ((result == nil) <==> (parse_val(old(xcode(reply))) == 0)) && (result != nil ==> status_code(result) == wrap_u32(parse_val(old(xcode(reply)))))
+//@   ensures[C14] without_usable_header_the_http_status_decides: (old(xcode(reply)) == "" || !parse_ok(old(xcode(reply)), 32)) ==> ((result == nil) <==> (lastresult(codeFromHttpStatus) == 0)) && (result != nil ==> status_code(result) == lastresult(codeFromHttpStatus))
+//@   assert_call[C14] codeFromHttpStatus : of_the_replys_status_code: arg0 == reply.StatusCode
+//@   ensures[C02] message_from_header_when_present: result != nil && old(xcode(reply)) != "" && str_contains(old(xstatus(reply)), ":") && !called("status.FromProto") ==> status_msg(result) == split_tail(old(xstatus(reply)), ":")
+//@   ensures[C02] message_defaults_to_http_status_text: result != nil && old(xcode(reply)) == "" && !called("status.FromProto") ==> status_msg(result) == old(reply.Status)
 //@   modifies nothing
 
 // ---- clientStream (client.go) ----
